@@ -149,3 +149,25 @@ package generator
 //@ ensures old(len(gen.Sections.Operations)) == 0 ==> vs_all(func(i int) bool { return 0 <= i && i < len(gen.Sections.Operations) ==> !gen.Sections.Operations[i].SkipExists })
 //@ ensures old(len(gen.Sections.OperationGroups)) == 0 ==> vs_all(func(i int) bool { return 0 <= i && i < len(gen.Sections.OperationGroups) ==> !gen.Sections.OperationGroups[i].SkipExists })
 //@ ensures old(len(gen.Sections.Application)) != 0 ==> vs_same(gen.Sections.Application, old(gen.Sections.Application))
+
+// ---- C08: no operation is silently dropped or merged ----
+
+//@ func pruneEmpty
+//@ props C08
+//@ safety
+//@ modifies nothing
+//@ ensures len(out) <= len(in)
+//@ ensures len(in) == 0 ==> len(out) == 0
+//@ loop 1 invariant len(out) <= vs_done(1)
+
+//@ func gatherOperations
+//@ props C08
+//@ requires specDoc != nil
+//@ ensures result != nil && vs_fresh(result)
+//@ ensures vs_all(func(k string) bool { return vs_has(result, k) ==> result[k].ID == k && result[k].Op != nil })
+//@ loop 1 invariant vs_all(func(j int) bool { return 0 <= j && j < len(oprefs) ==> oprefs[j].Op != nil })
+//@ loop 2 invariant vs_all(func(j int) bool { return 0 <= j && j < len(oprefs) ==> oprefs[j].Op != nil })
+//@ loop 3 invariant operations != nil && vs_fresh(operations)
+//@ loop 3 invariant vs_all(func(k string) bool { return vs_has(operations, k) ==> operations[k].ID == k && operations[k].Op != nil })
+//@ loop 3 invariant vs_all(func(j int) bool { return 0 <= j && j < len(oprefs) ==> oprefs[j].Op != nil })
+//@ loop 3 invariant len(operationIDs) == 0 ==> len(operations) == vs_done(3)
